@@ -20,3 +20,10 @@ package elgamal
 //@   modifies nothing
 //@   allocates
 //@   ensures result != nil && result.L != nil && result.M != nil
+
+//@ func Encrypt
+//@   nopanic[C05]
+//@   requires public != nil && message != nil
+//@   modifies nothing
+//@   allocates
+//@   ensures result0 != nil && fresh(result0) && result0.L != nil && result0.M != nil && result1 != nil
